@@ -158,6 +158,48 @@ Definition dec_of_text (s : str) : option dec :=
       else None
   end.
 
+(* What python's int(text, 10) / float(text) accept beyond the plain number
+   grammar, on ASCII: blanks around the number, a leading `+`, single
+   underscores between digits ("1_0", " 12 ", "+5"). [clean_num_text] removes
+   them, or fails on a misplaced underscore. (Unicode digits / blanks, ".5",
+   "5.", "Infinity" are not modelled.) *)
+Definition is_blank (c : N) : bool :=
+  N.eqb c 32 || N.eqb c 9 || N.eqb c 10 || N.eqb c 13 || N.eqb c 12 || N.eqb c 11.
+Definition is_digit (c : N) : bool := N.leb 48 c && N.leb c 57.
+Definition c_underscore : N := 95%N.
+
+Fixpoint drop_blanks (s : str) : str :=
+  match s with c :: s' => if is_blank c then drop_blanks s' else s | [] => [] end.
+Definition strip_blanks (s : str) : str := rev (drop_blanks (rev (drop_blanks s))).
+
+(* prev_digit: the previous character was a digit *)
+Fixpoint drop_underscores (s : str) (prev_digit : bool) : option str :=
+  match s with
+  | [] => Some []
+  | c :: s' =>
+      if N.eqb c c_underscore then
+        match s' with
+        | d :: _ => if prev_digit && is_digit d then drop_underscores s' false else None
+        | [] => None
+        end
+      else match drop_underscores s' (is_digit c) with
+           | Some r => Some (c :: r)
+           | None => None
+           end
+  end.
+
+Definition clean_num_text (s : str) : option str :=
+  match strip_blanks s with
+  | c :: s' =>
+      if N.eqb c c_plus
+      then match s' with                      (* "+5", never "+-5" *)
+           | d :: _ => if is_digit d then drop_underscores s' false else None
+           | [] => None
+           end
+      else drop_underscores (c :: s') false
+  | [] => None
+  end.
+
 Definition dec_of_Z (z : Z) : dec := Dec (z <? 0) (Z.abs z) 0.
 
 (* is the number integral? python float.is_integer / int(f) == f *)
@@ -251,13 +293,17 @@ Definition parse_scalar (k : scalar_kind) (j : json) : outcome pv :=
                     | Some d => match dec_integral d with Some z => int_range z | None => rejC end
                     | None => rejC
                     end
-      | JStr s =>                               (* pinned leniency: numeric strings *)
-          match parse_int_text s with
-          | Some z => int_range z
-          | None => match dec_of_text s with
-                    | Some d => match dec_integral d with Some z => int_range z | None => rejC end
-                    | None => rejC
-                    end
+      | JStr s0 =>                              (* pinned leniency: numeric strings *)
+          match clean_num_text s0 with
+          | None => rejC
+          | Some s =>
+              match parse_int_text s with
+              | Some z => int_range z
+              | None => match dec_of_text s with
+                        | Some d => match dec_integral d with Some z => int_range z | None => rejC end
+                        | None => rejC
+                        end
+              end
           end
       | _ => rejC
       end
@@ -268,10 +314,13 @@ Definition parse_scalar (k : scalar_kind) (j : json) : outcome pv :=
                     | Some _ => Ok (PFloat r)
                     | None => rejC
                     end
-      | JStr s => match dec_of_text s with      (* pinned leniency *)
-                  | Some d => Ok (PFloat (float_text d))
-                  | None => rejC
-                  end
+      | JStr s0 => match clean_num_text s0 with (* pinned leniency *)
+                   | None => rejC
+                   | Some s => match dec_of_text s with
+                               | Some d => Ok (PFloat (float_text d))
+                               | None => rejC
+                               end
+                   end
       | _ => rejC
       end
   | KString =>                                  (* _parse_string_input *)
